@@ -133,6 +133,7 @@ static unsigned char m_addr[AMAX + 1]; static unsigned int m_len;
 static unsigned char m_out[OMAX + 1];  static unsigned int m_outlen;
 static int m_chan;                      /* 1 local, 2 remote */
 static int m_undetermined;              /* documents do not define the result */
+static int m_fqdn_at;                   /* percent-hack "fqdn" containing @ (witness only) */
 static int m_steps, m_rule, m_noat;     /* for the witnesses only */
 
 static int last_at(unsigned int upto)   /* index of the final '@' before upto, or -1 */
@@ -160,13 +161,23 @@ static void model(void)
     if (!in_percenthack(m_addr + at + 1, m_len - (unsigned int) at - 1)) break;
     for (i = 0; i < AMAX; ++i) { if ((int) i >= at) break; if (m_addr[i] == '%') pc = (int) i; }
     if (pc < 0) break;                                     /* not of the form user%fqdn@domain */
-    /* The documents call the text after the last % a fully qualified domain name; a
-     * "fqdn" that itself contains @ (user%x@y@domain) is not a documented form and the
-     * new domain part would not be that text: result left open (judgement, see plan.py). */
-    for (i = 0; i < AMAX; ++i) { if ((int) i >= at) break; if ((int) i > pc && m_addr[i] == '@') m_undetermined = 1; }
+    /* The documents call the text after the last % a fully qualified domain name.  When
+     * that text itself contains @ (user%x@y@domain) the rewritten address user@x@y is
+     * still fully determined by addresses(5): its domain part is everything after the
+     * FINAL @.  (First version: result left open for this class; a seeded change that
+     * takes the position of the converted % for the domain showed the class matters.) */
+    for (i = 0; i < AMAX; ++i) { if ((int) i >= at) break; if ((int) i > pc && m_addr[i] == '@') m_fqdn_at = 1; }
     m_addr[pc] = '@';
     m_len = (unsigned int) at;
     ++m_steps;
+    /* ... with one exception that stays open: if the domain after the final @ of the new
+     * address is again a percenthack domain, a literal reading applies the hack once more
+     * while the code looks at the text after the converted % (which contains an @) and
+     * stops.  The documents do not settle this; only this sub-class is left undetermined. */
+    if (m_fqdn_at) {
+      int at2 = last_at(m_len);
+      if (in_percenthack(m_addr + at2 + 1, m_len - (unsigned int) at2 - 1)) { m_undetermined = 1; break; }
+    }
   }
   at = last_at(m_len);
   m_outlen = 0; o = 0;
@@ -246,7 +257,8 @@ void vmain(void)
     if (m_rule == 5) WITNESS("virtual_catchall");
     if (m_rule >= 10) WITNESS("virtual_exception");
     if (m_rule == 0) WITNESS("remote");
+    if (m_fqdn_at) WITNESS("undetermined_fqdn_with_at");   /* name kept from the first version: now compared */
   } else {
-    WITNESS("undetermined_fqdn_with_at");
+    WITNESS("percenthack_again_after_fqdn_with_at");
   }
 }
